@@ -28,6 +28,36 @@ def Ty.wrapDepth : Ty → Nat
   | .prop t => Ty.wrapDepth t + 1
   | _ => 0
 
+/-! ### structural soundness of a tape (hypothesis of the totality theorem, C05) -/
+
+/-- the `FieldsIter` walk over `[ti, e)` meets only keys (or the `MixedContainer` marker), every
+step stays inside the tape, moves forward and lands exactly on `e` -/
+def walkOk (toks : List TTok) : Nat → Nat → Nat → Bool
+  | 0, _, _ => false
+  | f + 1, ti, e =>
+    match fieldsNext toks ti e with
+    | .ok none => decide (toks[ti]? = some .mixedC ∧ ti < e) || decide (ti = e)
+    | .ok (some (_, _, _, ti')) => decide (ti < ti') && decide (ti' ≤ e) && walkOk toks f ti' e
+    | .error _ => false
+
+/-- structural soundness of token `i` (decidable): a container's end link lies behind it, inside the
+tape, and points back; an object's fields can be walked and, if it is a mixed container, its marker
+is found; a header is followed by its container -/
+def tokOk (toks : List TTok) (i : Nat) : Bool :=
+  match toks[i]? with
+  | some (.arr e _) => decide (i < e) && decide (e < toks.length) && decide (toks[e]? = some (.end_ i))
+  | some (.obj e _) =>
+    decide (i < e) && decide (e < toks.length) && decide (toks[e]? = some (.end_ i)) &&
+      walkOk toks (toks.length + 1) (i + 1) e &&
+      (match readArray toks i with | .error _ => false | .ok _ => true)
+  | some (.hdr _) => (match toks[i + 1]? with | some (.arr _ _) | some (.obj _ _) => true | _ => false)
+  | _ => true
+
+/-- structural soundness of a text tape as far as the deserializer relies on it: every token is
+sound and the top-level fields can be walked.  Every parsed tape satisfies it (C06). -/
+def WfT (toks : List TTok) : Bool :=
+  (List.range toks.length).all (tokOk toks) && walkOk toks (toks.length + 1) 0 toks.length
+
 end Jomini.TextDe
 
 namespace Jomini.TextDoc
